@@ -84,7 +84,49 @@ pub fn plant(ch: &mut Ch) -> Planted {
     b.prefix_lines();
     // Optionally some (possibly non-ASCII) text earlier on the fault's own line.
     let same_line_def = b.ch.chance(1, 2);
-    let family_pick = b.ch.pick(12);
+    let family_pick = b.ch.pick(13);
+    if family_pick == 12 {
+        // A definition-order fault: the diagnostic names a definition; its excerpt must show
+        // that definition's right-hand side (reached directly, through one function, or two).
+        let hops = b.ch.pick(3);
+        let mut lead = String::new();
+        if same_line_def {
+            lead = format!("{} = {}; ", ["é", "名", "λx", "ü2", "q"][b.ch.pick(5)], b.ch.pick(9));
+        }
+        let sep = |ch: &mut Ch| if ch.chance(1, 3) { "; ".to_owned() } else { nl.to_owned() };
+        let fault = match hops {
+            0 => ["ordy + 1", "(ordy * 2)", "if ordy < 1 then 1 else 2"][b.ch.pick(3)].to_owned(),
+            _ => ["ordf 1", "ordf (2 + 3)", "1 + ordf 0"][b.ch.pick(3)].to_owned(),
+        };
+        let fns_first = b.ch.chance(1, 2);
+        let fns = match hops {
+            0 => String::new(),
+            1 => format!("ordf = (ordp : int) => ordy + ordp{}", sep(b.ch)),
+            _ => format!("ordf = (ordp : int) => ordg ordp{}ordg = (ordq : int) => ordq + ordy{}", sep(b.ch), sep(b.ch)),
+        };
+        if fns_first {
+            b.text.push_str(&fns);
+        }
+        b.text.push_str(&lead);
+        if b.ch.chance(1, 4) {
+            b.text.push_str(&format!("ordz ={nl}{}", indent(b.ch)));
+        } else {
+            b.text.push_str("ordz = ");
+        }
+        let start = b.text.len();
+        b.text.push_str(&fault);
+        let end = b.text.len();
+        b.text.push_str(nl);
+        if !fns_first {
+            b.text.push_str(&fns);
+        }
+        b.text.push_str(&format!("ordy = 1 + 1{nl}ordz"));
+        if b.ch.chance(1, 2) {
+            b.text.push_str(nl);
+        }
+        let head = "The definition of `ordz` references `ordy` (directly or indirectly), which will not be available in time during evaluation.".to_owned();
+        return Planted { text: std::mem::take(&mut b.text), start, end, head, family: "definition order: excerpt of the named definition", binder_form: "" };
+    }
     let mut lead = String::new();
     if same_line_def && b.defined.len() < DEF_NAMES.len() && family_pick != 11 {
         // `name = expr; ` before the fault on the same line.
@@ -649,7 +691,7 @@ pub fn def(tier: Tier) -> CheckDef {
     CheckDef {
         id: "C15",
         level: "exploration",
-        rule: "proptest-generated rejected programs with one planted fault of known byte span (unbound name; re-bound name in all eight binder forms; seven kinds of type fault whose offending subexpression is an atom, a parenthesised operator expression, or a multi-line conditional; stray symbols incl. emoji and combining sequences), placed after 0-40 lines of definitions / comments / blank lines, after non-ASCII text on the same line, on indented continuation lines, with LF or CRLF, with and without a final line break; oracle = the diagnostic of the expected family exists and its excerpt shows exactly the spanned lines, their 1-based numbers, and overline columns equal to the span's characters (leading indentation of continuation lines and trailing whitespace optional); plus type-directed generated well-typed programs (optionally under a generated multi-line layout with comments) in which one subterm at a position whose expected type the syntax fixes (operand of an arithmetic or comparison operator, condition, applicand, annotation / domain / codomain) is replaced by a closed term of another type - some diagnostic must show exactly the replacement; plus, for generated programs under generated multi-line layouts, every subterm's source range lies in the file on character boundaries, nests in its parent's, and its text re-parses in that scope to the same subterm; non-trivial = fault not on line 1, or non-ASCII text before it on its line, or a multi-line span (for the range part: >= 5 subterms and a multi-line or non-ASCII layout); distinct by text",
+        rule: "proptest-generated rejected programs with one planted fault of known byte span (unbound name; re-bound name in all eight binder forms; seven kinds of type fault whose offending subexpression is an atom, a parenthesised operator expression, or a multi-line conditional; stray symbols incl. emoji and combining sequences; a definition-order fault reached directly or through one or two functions, whose excerpt must show the right-hand side of the definition the message names), placed after 0-40 lines of definitions / comments / blank lines, after non-ASCII text on the same line, on indented continuation lines, with LF or CRLF, with and without a final line break; oracle = the diagnostic of the expected family exists and its excerpt shows exactly the spanned lines, their 1-based numbers, and overline columns equal to the span's characters (leading indentation of continuation lines and trailing whitespace optional); plus type-directed generated well-typed programs (optionally under a generated multi-line layout with comments) in which one subterm at a position whose expected type the syntax fixes (operand of an arithmetic or comparison operator, condition, applicand, annotation / domain / codomain) is replaced by a closed term of another type - some diagnostic must show exactly the replacement; plus, for generated programs under generated multi-line layouts, every subterm's source range lies in the file on character boundaries, nests in its parent's, and its text re-parses in that scope to the same subterm; non-trivial = fault not on line 1, or non-ASCII text before it on its line, or a multi-line span (for the range part: >= 5 subterms and a multi-line or non-ASCII layout); distinct by text",
         assumptions: vec![
             "a type error about a parenthesised expression points at the expression including its parentheses (the parser documents that a group's range includes them)",
             "the overline row is compared in characters, as the property states",
